@@ -27,9 +27,9 @@ fn key_src(kind: KeyKind, k: u8) -> &'static str {
         (KeyKind::Str, 0) => "\"Z\"",
         (KeyKind::Str, 1) => "\"a\"",
         (KeyKind::Str, _) => "\"é\"",
-        (KeyKind::Arr, 0) => "[1]",
-        (KeyKind::Arr, 1) => "[1, 0]",
-        (KeyKind::Arr, _) => "[2]",
+        (KeyKind::Arr, 0) => "[]",
+        (KeyKind::Arr, 1) => "[1]",
+        (KeyKind::Arr, _) => "[1, 0]",
         (KeyKind::Nested, 0) => "[std.length(std.set([5, 5, 5]))]",
         (KeyKind::Nested, 1) => "[std.sort([3, 1, 2])[0], std.length(std.uniq(std.sort([7, 7]))) - 1]",
         (KeyKind::Nested, _) => "[std.length(std.set([2, 1, 2], keyF=function(x) [x]))]",
@@ -248,6 +248,7 @@ fn set_algebra(sh: &util::Shard) -> Report {
     let universes: Vec<(KeyKind, Vec<&str>, Option<Vec<&str>>)> = vec![
         (KeyKind::Num, vec!["-2", "-0.5", "0", "1", "2.5", "1e9"], None),
         (KeyKind::Str, vec!["\"\"", "\"A\"", "\"a\"", "\"ab\"", "\"b\"", "\"é\""], None),
+        (KeyKind::Arr, vec!["[]", "[0]", "[0, 0]", "[0, 1]", "[1]", "[1, 0]"], None),
         (KeyKind::Nested, vec!["[std.length(std.set([5, 5]))]", "[std.sort([2, 1])[0], 0]", "[std.sort([2, 1])[0], 1]", "[2]", "[std.length(std.set([1, 2])), 0]", "[3]"], Some(vec!["[1]", "[1,0]", "[1,1]", "[2]", "[2,0]", "[3]"])),
     ];
     for (kind, uni, uni_json) in &universes {
